@@ -32,6 +32,27 @@ inductive Err where
 
 variable {ν : Type}
 
+/-! ### the Python type of a weight
+The scheduling model works with the VALUE of a weight (a rational). What the code does with the TYPE is modelled separately:
+`np.array([...])` of the due moves' weights, then `move_probabilities /= np.sum(move_probabilities)`. -/
+
+/-- how a weight was written: `probability=1` or `probability=1.0` -/
+inductive PyNum where
+  | int | float
+  deriving DecidableEq, Repr
+
+/-- is `np.array(ws)` a float array? (numpy's type inference: all Python ints give int64, one float gives float64, the
+    empty list float64; with `dtype=float` — the repaired line — always) -/
+def arrayIsFloat (forceFloat : Bool) (ws : List PyNum) : Bool :=
+  forceFloat || ws.isEmpty || ws.any (· == .float)
+
+/-- `a /= x` (true division in place): numpy refuses to cast the float64 result into an integer array
+    (`UFuncTypeError`, casting rule 'same_kind') -/
+def inplaceTrueDivOK (isFloat : Bool) : Bool := isFloat
+
+/-- does the normalisation of the weights of one free slot go through? -/
+def normaliseOK (forceFloat : Bool) (ws : List PyNum) : Bool := inplaceTrueDivOK (arrayIsFloat forceFloat ws)
+
 /-- `available_moves = [name for name in self.moves if self.step_count % self.moves[name].interval == 0]` -/
 def dueList (t : Table ν) (step : Nat) : Table ν := t.filter (fun e => step % e.interval == 0)
 
